@@ -177,6 +177,13 @@ func Start(ds DataSource, queuedRequests chan func(), Npresamp int, Nsamples int
 // This will be a long-running goroutine, as long as a source is active.
 func CoreLoop(ds DataSource, queuedRequests chan func()) {
 	defer ds.RunDoneDeactivate()
+	// A run can also end without Stop (error block from the source, read timeout): data writing must not outlive
+	// the run, or the files stay open and the writing state stays "active" with nobody able to stop it.
+	defer func() {
+		if ds.WritingIsActive() {
+			ds.WriteControl(&WriteControlConfig{Request: "STOP"})
+		}
+	}()
 	defer vrecover("CoreLoop")
 	nextBlock := ds.getNextBlock()
 
